@@ -25,7 +25,7 @@ structure Contract {σ In Out : Type} (cv : Converter σ In Out) (R : σ → Lis
 /-- what a finished loop may have returned -/
 def Outcome {σ In Out : Type} (cv : Converter σ In Out) (R : σ → List In → List Out → σ → Prop) (string : List In)
     (res : Option (List Out)) : Prop :=
-  res = none ∨ res = some (string.map cv.cast) ∨
+  res = none ∨ (res = some (string.map cv.cast) ∧ ∃ s inp w, (cv.step s inp w).res = .noconv) ∨
     ∃ out s', res = some out ∧ R cv.init string out s' ∧ cv.isInit s' = true
 
 /-- measure: twice the remaining input, plus one while the window is smaller than a whole character -/
@@ -101,7 +101,7 @@ theorem loop_outcome {σ In Out : Type} (cv : Converter σ In Out) (R : σ → L
           · have : 0 < r.consumed := hprog hres (by intro h; rw [h] at hw; exact hw rfl)
             split at hfuel <;> omega
     cases hres : r.res with
-    | noconv => exact ⟨_, rfl, Or.inr (Or.inl rfl)⟩
+    | noconv => exact ⟨_, rfl, Or.inr (Or.inl ⟨rfl, state, string.drop frm, buf.writeSize, by rw [hr]; exact hres⟩)⟩
     | error => exact ⟨none, rfl, Or.inl rfl⟩
     | part => simp only; exact hgrow (Or.inr hres)
     | ok =>
@@ -118,5 +118,124 @@ theorem loop_outcome {σ In Out : Type} (cv : Converter σ In Out) (R : σ → L
           simp only [this, Bool.not_false, if_true]
           exact ⟨none, rfl, Or.inl rfl⟩
       · rw [if_neg hend]; exact hgrow (Or.inl hres)
+
+
+/-- The converter does not get stuck on "good" input (`Good state remaining`): it never reports an error there, keeps
+the input good, converts at least one character whenever the window has room for a whole one, reports `ok` when it
+consumed everything, and is back in the initial state at the end of good input. -/
+structure Live {σ In Out : Type} (cv : Converter σ In Out) (Good : σ → List In → Prop) : Prop where
+  noError : ∀ s inp w, Good s inp → (cv.step s inp w).res = .ok ∨ (cv.step s inp w).res = .part
+  keep : ∀ s inp w, Good s inp → Good (cv.step s inp w).state (inp.drop (cv.step s inp w).consumed)
+  fits : ∀ s inp w, Good s inp → inp ≠ [] → max cv.maxLength 1 ≤ w → (cv.step s inp w).produced ≠ []
+  allOk : ∀ s inp w, Good s inp → (cv.step s inp w).consumed = inp.length → (cv.step s inp w).res = .ok
+  done : ∀ s, Good s [] → cv.isInit s = true
+
+theorem loop_succeeds {σ In Out : Type} (cv : Converter σ In Out) (R : σ → List In → List Out → σ → Prop)
+    (hc : Contract cv R) (Good : σ → List In → Prop) (hl : Live cv Good) (string : List In) :
+    ∀ (fuel : Nat) (state : σ) (frm : Nat) (buf : Buf Out),
+      frm < string.length → Good state (string.drop frm) →
+      loopMeasure string.length cv.maxLength frm buf < fuel →
+      ∃ out, codecvtLoop cv string fuel state frm buf = .ok (some out) := by
+  intro fuel
+  induction fuel with
+  | zero => intro _ _ _ _ _ h; omega
+  | succ fuel ih =>
+    intro state frm buf hfrm hgood hfuel
+    unfold codecvtLoop
+    simp only
+    have hne : string.drop frm ≠ [] := by
+      intro h; have := congrArg List.length h; simp at this; omega
+    generalize hr : cv.step state (string.drop frm) buf.writeSize = r
+    have hwin : r.produced.length ≤ buf.writeSize := by rw [← hr]; exact hc.window _ _ _
+    have hbd : r.consumed ≤ string.length - frm := by
+      have := hc.bound state (string.drop frm) buf.writeSize
+      rw [hr, List.length_drop] at this; exact this
+    rw [if_neg (by omega)]
+    have hres : r.res = .ok ∨ r.res = .part := by rw [← hr]; exact hl.noError _ _ _ hgood
+    have hkeep : Good r.state (string.drop (frm + r.consumed)) := by
+      have := hl.keep state (string.drop frm) buf.writeSize hgood
+      rw [hr, List.drop_drop] at this; exact this
+    have hprog : r.produced ≠ [] → 0 < r.consumed := by
+      intro hp
+      have := hc.progress state (string.drop frm) buf.writeSize (by rw [hr]; exact hres) (by rw [hr]; exact hp)
+      rw [hr] at this; exact this
+    have hgrow : frm + r.consumed ≠ string.length →
+        ∃ out, (if r.produced.length = 0 ∧ (buf.written r.produced).writeSize ≥ max cv.maxLength 1 then (Except.ok none : Except Fault (Option (List Out)))
+          else codecvtLoop cv string fuel r.state (frm + r.consumed)
+            ((buf.written r.produced).resizeWriteArea (max ((buf.written r.produced).data.length * 2) (max cv.maxLength 1)))) = .ok (some out) := by
+      intro hnend
+      have hstop : ¬ (r.produced.length = 0 ∧ (buf.written r.produced).writeSize ≥ max cv.maxLength 1) := by
+        intro ⟨h0, hws⟩
+        have hws' : (buf.written r.produced).writeSize = buf.writeSize := by simp [Buf.written, h0]
+        rw [hws'] at hws
+        have := hl.fits state (string.drop frm) buf.writeSize hgood hne hws
+        rw [hr] at this
+        exact this (List.eq_nil_of_length_eq_zero h0)
+      rw [if_neg hstop]
+      apply ih
+      · omega
+      · exact hkeep
+      · unfold loopMeasure at hfuel ⊢
+        rw [resize_writeSize]
+        have hnl : ¬ (max ((buf.written r.produced).data.length * 2) (max cv.maxLength 1) < max cv.maxLength 1) := by omega
+        rw [if_neg hnl]
+        by_cases hw : r.produced.length = 0
+        · have hws : (buf.written r.produced).writeSize = buf.writeSize := by simp [Buf.written, hw]
+          rw [hws] at hstop
+          have : buf.writeSize < max cv.maxLength 1 := by omega
+          rw [if_pos this] at hfuel
+          omega
+        · have : 0 < r.consumed := hprog (by intro h; rw [h] at hw; exact hw rfl)
+          split at hfuel <;> omega
+    rcases hres with hres | hres
+    · rw [hres]
+      simp only
+      by_cases hend : frm + r.consumed = string.length
+      · rw [if_pos hend]
+        have hinit : cv.isInit r.state = true := by
+          apply hl.done
+          have := hkeep
+          rw [hend, List.drop_length] at this
+          exact this
+        simp only [hinit, Bool.not_true, Bool.false_eq_true, if_false]
+        exact ⟨_, rfl⟩
+      · rw [if_neg hend]; exact hgrow hend
+    · rw [hres]
+      simp only
+      apply hgrow
+      intro hend
+      have : r.consumed = (string.drop frm).length := by rw [List.length_drop]; omega
+      have := hl.allOk state (string.drop frm) buf.writeSize hgood (by rw [hr]; exact this)
+      rw [hr, hres] at this
+      cases this
+
+/-- `impl::codecvt` as a whole: it terminates without leaving the window or the input, and what it returns is a failure
+or the conversion of the **complete** input ending in the initial state (or the input itself if the facet said `noconv`). -/
+theorem codecvt_outcome {σ In Out : Type} (cv : Converter σ In Out) (R : σ → List In → List Out → σ → Prop)
+    (hc : Contract cv R) (hR : Compositional R) (hinit : cv.isInit cv.init = true) (string : List In) :
+    ∃ res, codecvt cv string = .ok res ∧ Outcome cv R string res := by
+  unfold codecvt
+  by_cases he : string.isEmpty = true
+  · rw [if_pos he]
+    have : string = [] := List.isEmpty_iff.1 he
+    subst this
+    exact ⟨_, rfl, Or.inr (Or.inr ⟨[], cv.init, rfl, hR.nil _, hinit⟩)⟩
+  · rw [if_neg he]
+    apply loop_outcome cv R hc hR string _ _ _ _ (Nat.zero_le _)
+    · simpa [Buf.create] using hR.nil cv.init
+    · unfold loopMeasure loopFuel Buf.create; simp only; split <;> omega
+
+theorem codecvt_succeeds {σ In Out : Type} (cv : Converter σ In Out) (R : σ → List In → List Out → σ → Prop)
+    (hc : Contract cv R) (Good : σ → List In → Prop) (hl : Live cv Good) (string : List In) (hg : Good cv.init string) :
+    ∃ out, codecvt cv string = .ok (some out) := by
+  unfold codecvt
+  by_cases he : string.isEmpty = true
+  · rw [if_pos he]; exact ⟨_, rfl⟩
+  · rw [if_neg he]
+    have hne : string ≠ [] := fun h => he (by simp [h])
+    apply loop_succeeds cv R hc Good hl string
+    · exact List.length_pos_iff.2 hne
+    · simpa using hg
+    · unfold loopMeasure loopFuel Buf.create; simp only; split <;> omega
 
 end Fcppt.C15
